@@ -109,6 +109,7 @@ def shared_harness(N, prefix, threads):
     nfetched = ' + '.join(['0'] + ['(res[%d] != 0 ? 1 : 0)' % j for j in gets])
     ndrained = ' + '.join(['0'] + ['(dr[%d] != 0 ? 1 : 0)' % i for i in range(N)])
     lines.append('  __CPROVER_assert((%s) == (%s) + (%s), "inserted = fetched + drained (nothing lost, nothing invented)");' % (ninserted, nfetched, ndrained))
+    lines.append('  __CPROVER_assert(0, "WITNESS: the end of the harness is reachable (expected to fail)");')
     lines.append('  return 0; }')
     return '\n'.join(lines)
 
@@ -132,11 +133,13 @@ int main(void){
       else { __CPROVER_assert(v == model[count-1], "fetch returns the most recently inserted block (LIFO)"); count--; }
     }
   }
+  __CPROVER_assert(0, "WITNESS: the end of the harness is reachable (expected to fail)");
   return 0; }
 ''' % (N + 1, BASE, L_, BASE, N, BASE)
 
 
 def run_cbmc(src_text, unwind, tag, timeout=1500):
+    timeout = int(os.environ.get('C19_CBMC_TIMEOUT', timeout))
     d = os.path.join(build.BUILD, 'c19')
     os.makedirs(d, exist_ok=True)
     path = os.path.join(d, '%s.%d.c' % (tag, os.getpid()))
@@ -159,13 +162,18 @@ def run_cbmc(src_text, unwind, tag, timeout=1500):
     else:
         verdict = 'unknown'
     unwinding = [f for f in failed if 'unwinding' in f[1]]
-    prop = [f for f in failed if 'unwinding' not in f[1]]
+    witness = [f for f in failed if f[1].startswith('WITNESS')]
+    prop = [f for f in failed if 'unwinding' not in f[1] and not f[1].startswith('WITNESS')]
+    if verdict == 'sat' and not prop and not unwinding:
+        verdict = 'unsat'          # only the reachability witness failed, as it must
     trace = None
     if prop:
-        m = re.search(r'Trace for (.*?)\n(.*?)(?:\n\n\*\*|\nTrace for|\Z)', out, re.S)
-        vals = re.findall(r'^\s*(res\[\d+l?\]|dr\[\d+l?\])=(\d+)', out, re.M)
+        segs = re.split(r'^Trace for ', out, flags=re.M)
+        seg = [x for x in segs[1:] if x.startswith(prop[0][0] + ':')]
+        vals = re.findall(r'^\s*(res\[\d+l?\]|dr\[\d+l?\])=(\d+)', seg[0] if seg else out, re.M)
         trace = {k.replace('l]', ']'): int(v) for k, v in vals}
-    return {'verdict': verdict, 'seconds': dt, 'failed': prop, 'unwinding_failed': unwinding, 'nprops': succ + len(failed), 'trace': trace, 'raw_tail': out[-600:] if verdict == 'unknown' else ''}
+    return {'verdict': verdict, 'seconds': dt, 'failed': prop, 'unwinding_failed': unwinding, 'nprops': succ + len(failed), 'trace': trace, 'witness': bool(witness), 'timeout': out == 'TIMEOUT',
+            'raw_tail': out[-600:] if verdict == 'unknown' else ''}
 
 
 def work(item):
@@ -177,7 +185,7 @@ def work(item):
         src = code + '\n' + shared_harness(N, prefix, threads)
         nconc = sum(len(t) for t in threads)
         unwind = nconc + 1
-        r = run_cbmc(src, unwind, 'sh%d_%d_%s' % (N, prefix, '-'.join(''.join(t) for t in threads)))
+        r = run_cbmc(src, unwind, 'sh%d_%d_%s' % (N, prefix, '-'.join(''.join(t) for t in threads)), timeout=1500 if tier == 'quick' else 3000)
         name = 'shared cache capacity %d, %d sequential inserts, then threads %s (every interleaving of the atomic steps, unwind %d)' % (N, prefix, ' | '.join(','.join(t) for t in threads), unwind)
     else:
         code, size = gen_c(N, kind == 'seq-tls')
@@ -191,8 +199,13 @@ def work(item):
     stats['samples'] = [{'query': name, 'verdict': r['verdict'], 'seconds': round(r['seconds'], 2), 'properties': r['nprops']}]
     stats['paths'] = 1
     stats['ir_instructions'] = len(code.split('\n'))
-    if r['verdict'] == 'unsat':
-        out['obligations'].append({'obligation': name, 'verdict': 'holds', 'seconds': round(r['seconds'], 2), 'detail': '%d CBMC properties incl. unwinding assertions' % r['nprops']})
+    out['not_explored'] = []
+    if r['timeout']:
+        out['not_explored'].append('%s: CBMC did not finish within %d s' % (name, r['seconds']))
+    elif r['verdict'] == 'unsat' and not r['witness']:
+        out['broken'].append('%s: the reachability witness assert(0) at the end of the harness did NOT fail: the harness is vacuous' % name)
+    elif r['verdict'] == 'unsat':
+        out['obligations'].append({'obligation': name, 'verdict': 'holds', 'seconds': round(r['seconds'], 2), 'detail': '%d CBMC properties incl. unwinding assertions; reachability witness fails as required' % r['nprops']})
         out['witnesses']['reachability'] += 1
     elif r['verdict'] == 'sat' and r['failed']:
         out['candidates'].append({'key': '%s:N=%d:%s' % (kind, N, r['failed'][0][1][:40]), 'what': '%s: CBMC counterexample for "%s"' % (name, r['failed'][0][1]), 'kind': kind, 'N': N, 'prefix': prefix,
@@ -346,6 +359,12 @@ def main(tier):
     for w in results:
         chk.merge_worker(w)
     chk.cov['scenarios'] = len(items)
+    skipped = [x for w in results for x in w.get('not_explored', [])]
+    chk.cov['not_explored'] = skipped
+    for x in skipped:
+        print('NOT-EXPLORED (no verdict claimed): ' + x)
+    if len(skipped) * 4 > len(items):
+        chk.broken_q('%d of %d scenarios hit the CBMC time cap: the machine is too loaded or the encoding regressed' % (len(skipped), len(items)))
     groups = {}
     for c in chk.candidates:
         groups.setdefault((c['kind'], tuple(c['failed'][:1])), []).append(c)
